@@ -371,7 +371,7 @@ def build_universe(lane, u):
       codes.append(f.__code__)
   U = {'u': u, 'entries': E, 'mods': {'a': a, 'b': b, 'g': g, 'v1': v1, 'v2': v2},
        'lists': lists, 'sink': sink,
-       'code_ids': {id(c): i for i, c in enumerate(codes)},
+       'code_ids': CodeIds(codes),
        'code_refs': [weakref.ref(c) for c in codes],
        }
   del codes
@@ -395,6 +395,42 @@ def init_zygote(lane):
   faults.SCOPE_KEYS[:] = scope
   Z['points'] = faults.usable_points(pts)
   _install_counters()
+
+
+class CodeIds(object):
+  """Harness identities for code objects: never a bare id() (addresses of dead
+  code objects are reused), always validated through a weak reference."""
+
+  def __init__(self, codes=()):
+    self._by_addr = {}
+    self._next = 0
+    self._sealed = False
+    for c in codes:
+      self.of(c)
+    self._sealed = True
+
+  def of(self, code, prefer=None):
+    if code is None:
+      return None
+    ent = self._by_addr.get(id(code))
+    if ent is not None and ent[0]() is code:
+      return ent[1]
+    if prefer is not None:
+      cid = prefer
+    else:
+      # universe codes are numbered 0..n-1 in the zygote; anything first seen
+      # later gets a name of its own, from a namespace nothing else uses
+      cid = self._next if not self._sealed else 'x%d' % self._next
+      self._next += 1
+    self._by_addr[id(code)] = (weakref.ref(code), cid)
+    return cid
+
+  def copy(self):
+    c = CodeIds()
+    c._by_addr = dict(self._by_addr)
+    c._next = self._next
+    c._sealed = True
+    return c
 
 
 def get_universe(lane, u):
@@ -468,7 +504,7 @@ def _wrap_transform_function(klass):
     ident = _thread.get_ident()
     st = act['by_thread'].setdefault(ident, [])
     code = getattr(getattr(fn, '__func__', fn), '__code__', None)
-    cid = act['code_ids'].get(id(code))
+    cid = act['code_ids'].of(code)
     try:
       opt = common._opts_tuple(self.get_caching_key(user_context))
     except Exception:   # noqa: BLE001
@@ -816,6 +852,13 @@ def make_plan(seed, index, tier, sub):
             'x': rng.choice(XS[:5]), 'fid': -1, 'twice': rng.random() < 0.6, 'spell': rng.randrange(5)}
       ops = threads[t]['ops']
       ops.insert(rng.randrange(len(ops) + 1), op)
+  # "bulk" op (rare: it is slow): more live converted functions than any plausible cache bound
+  if rng.random() < (0.015 if tier == 'quick' else 0.03):
+    t = rng.randrange(nthreads)
+    rec, fi = rng.choice(optsets)
+    bulk_n = rng.choice([140, 300])
+    threads[t]['ops'].insert(rng.randrange(len(threads[t]['ops']) + 1),
+                             {'op': 'bulk', 'fid': -1, 'n': bulk_n, 'rec': rec, 'feats': fi})
   # "mutate" ops: edit a function in place right after it was requested, then
   # repeat that request (copies of the universe live only in this child)
   if rng.random() < 0.3:
@@ -845,6 +888,8 @@ def make_plan(seed, index, tier, sub):
       ev['k'] = rng.randint(1, 2500)
     events.append(ev)
   plan = {'prop': 'C10', 'universe': u, 'threads': threads, 'events': events, 'faults': [],
+          'raw_threads': nthreads > 1 and rng.random() < 0.15,
+          'max_steps': 200000 + 4000 * sum(o.get('n', 0) for t in threads for o in t['ops'] if o['op'] == 'bulk'),
           'strategy': _gen_strategy(rng, nthreads), 'opcodes': rng.random() < 0.15,
           'probe_xs': sorted(rng.sample(XS, 3)), 'sub': sub}
   if sub == 'faulty':
@@ -875,7 +920,8 @@ class Run(object):
     self.violations = []
     self.responses = []
     strat = build_strategy(plan['strategy'], schedule)
-    self.sim = sched.Sim(strat, max_steps=plan.get('max_steps', 200000), keep_log=keep_log)
+    self.sim = sched.Sim(strat, max_steps=plan.get('max_steps', 200000), keep_log=keep_log,
+                         raw_threads=bool(plan.get('raw_threads')))
     self.sim.tracer = sched.Tracer(self.sim, opcodes=plan.get('opcodes', False))
     self.inj = faults.Injector() if plan['faults'] else None
     self.inflight = {}       # tid -> op
@@ -884,6 +930,7 @@ class Run(object):
     self.op_meta = {}        # ident -> dict for probes
     self.cache_locks = [l for l in boot.SIM_LOCKS if 'transpiler' in l.site[0]]
     self.slots = {}
+    self.bulk_keep = []
     self.abstract = set()
     self.n_fresh = 0
     self.rdir = rdir
@@ -950,7 +997,7 @@ class Run(object):
       if old_id is not None and code_id == old_id:
         sim.probe('code_object_address_reused')
       self.n_fresh += 1       # (no reference to the code object is kept: its address must be reusable)
-      COUNT['active']['code_ids'][code_id] = 1000 + self.n_fresh
+      COUNT['active']['code_ids'].of(f.__code__, 1000 + self.n_fresh)
       self.slots[slot] = {'mod': mod, 'code_id': code_id}
       sim.probe('fresh_versions_loaded')
     self.inflight[tid] = {'fid': -1}
@@ -993,6 +1040,45 @@ class Run(object):
     with sched.atomic(sim):
       f = g = mod = None
 
+  def do_bulk(self, tid, i, op):
+    """Convert many distinct live functions, then request the first ones again:
+    nothing may be transformed twice however many entries the caches hold."""
+    sim, malt = self.sim, self.malt
+    rec = {'t': tid, 'i': i, 'op': op, 'status': None, 'faulted': False}
+    self.responses.append(rec)
+    n = op['n']
+    with sched.atomic(sim):
+      src = 'K = 1\n\n' + ''.join(
+          'def bulk_%d(x, l):\n  if x == %d:\n    l.append(%d)\n  return (%d, x + K)\n\n\n' % (k, k, k, k)
+          for k in range(n))
+      path = os.path.join(self.rdir, 'bulk', 't%d_%d' % (tid, i), 'simbulk.py')
+      common.write_module(path, src)
+      mod = common.load_module('simbulk_%d_%d' % (tid, i), path)
+      fns = [getattr(mod, 'bulk_%d' % k) for k in range(n)]
+      for k, f in enumerate(fns):
+        COUNT['active']['code_ids'].of(f.__code__, 5000 + 1000 * tid + 200 * i + k)
+      self.bulk_keep.append(fns)        # all of them stay alive
+    self.inflight[tid] = {'fid': -1}
+    sim.point('op', -1, i)
+    feats = _feats(malt, op['feats'])
+    try:
+      bad = None
+      for rnd in (0, 1):
+        for f in (fns if rnd == 0 else fns[:4]):
+          try:
+            g = malt.to_graph(f, recursive=op['rec'], experimental_optional_features=feats)
+            if g(7, []) != (int(f.__name__.split('_')[1]), 8):
+              bad = bad or ('R2', '%s computes %r' % (f.__name__, g(7, [])))
+          except Exception as ex:   # noqa: BLE001
+            bad = bad or ('R1', '%s: %s: %s' % (f.__name__, type(ex).__name__, str(ex)[:100]))
+      rec['status'] = 'bulk'
+    finally:
+      self.inflight[tid] = None
+    if bad:
+      self.viol(bad[0], 'T%d op%d bulk conversion of %d live functions: %s' % (tid, i, n, bad[1]), 'bulk-' + bad[0])
+    sim.probe('bulk_conversions', n)
+    sim.note('bulk:%d' % n)
+
   def do_mutate(self, tid, i, op):
     """Edit a function in place (new defaults / keyword-only defaults / code
     object), then request it again under the options of an earlier request and
@@ -1032,6 +1118,8 @@ class Run(object):
       return self.do_fresh(tid, i, op)
     if op['op'] == 'mutate':
       return self.do_mutate(tid, i, op)
+    if op['op'] == 'bulk':
+      return self.do_bulk(tid, i, op)
     sim = self.sim
     e = self.E[op['fid']]
     f = e.fn
@@ -1116,7 +1204,7 @@ class Run(object):
     plan, sim = self.plan, self.sim
     reals = common.real_transpilers()
     act = {'real': set(id(t) for t in reals), 'done': {}, 'who': {}, 'by_thread': {},
-           'code_ids': dict(self.U['code_ids']), 'requests': 0, 'transforms': 0,
+           'code_ids': self.U['code_ids'].copy(), 'requests': 0, 'transforms': 0,
            'tid_of': lambda ident: self.tid_by_ident.get(ident, -1)}
     COUNT['active'] = act
 
@@ -1138,7 +1226,7 @@ class Run(object):
     def on_lock(kind, lock, thread):
       if lock not in self.cache_locks:
         return
-      m = self.op_meta.get(thread.real.ident)
+      m = self.op_meta.get(thread.ident)
       if kind == 'blocked':
         sim.probe('blocked_on_cache_lock')
         if m is not None:
@@ -1170,7 +1258,7 @@ class Run(object):
     E = self.E
     for rec in self.responses:
       op = rec['op']
-      if op['op'] in ('fresh', 'mutate'):
+      if op['op'] in ('fresh', 'mutate', 'bulk'):
         continue      # compared at once, inside the run
       e = E[op['fid']]
       if rec['status'] in (None, 'skipped-dropped', 'skipped-mutated'):
@@ -1356,7 +1444,8 @@ def run_job(lane, job, rdir):
                 'skipped_dropped': sum(1 for r in run.responses if r['status'] == 'skipped-dropped'),
                 'faulted_requests': sum(1 for r in run.responses if r['faulted'])},
       'trace': {str(tid): ' '.join('%s(%s)%s' % (r['op']['op'], run.E[r['op']['fid']].name if r['op']['fid'] >= 0
-                                                  else 's%dv%d' % (r['op']['slot'], r['op']['ver']),
+                                                  else ('bulk%d' % r['op']['n'] if r['op']['op'] == 'bulk'
+                                                        else 's%dv%d' % (r['op']['slot'], r['op']['ver'])),
                                                   '=' + str(r['status']))
                                    for r in run.responses if r['t'] == tid)[:300]
                 for tid in range(len(plan['threads']))},
